@@ -294,6 +294,10 @@ func (u *Unit) havocForCall(p *Path, pre *State, eff *Effects, regs map[string]*
 		if !eff.W[cn] {
 			reg = nil // only fresh objects are initialised
 		}
+		if u.cx.frameInfo == nil {
+			u.cx.frameInfo = map[string]frameInfo{}
+		}
+		u.cx.frameInfo[nv.Op] = frameInfo{base: pre.Get(u.cx, cn), hasRegion: reg != nil && (reg.Whole || len(reg.Idx) > 0 || len(reg.Cells) > 0)}
 		p.assume(u.frameFormula(comp, pre.Get(u.cx, cn), nv, reg, allocBefore, false))
 		if inv := u.refInvariant(cn, nv, p.st.Get(u.cx, "alloc")); inv != nil {
 			p.assume(inv)
